@@ -322,6 +322,18 @@ def check(chk):
         chk.ob("PAIR-15", "OPP parser stops (keeps the buffer) only for an incomplete frame or on regained sync", bool(inc) or bool(sync),
                f.where(n.ast), detail="guards %s" % sorted(g.items()), construct=f.ident, text="break guard")
     # TABLE-4 against the handlers
+    # each OPP input reader looks the sending card up in the table it tested it against (direct inputs: inp_addr_dict, switch matrix:
+    # matrix_inp_addr_dict): a card with matrix wings only is in the second table alone
+    for rd_, tab_ in (("read_gen2_inp_resp", "self.inp_addr_dict"), ("read_matrix_inp_resp", "self.matrix_inp_addr_dict"),
+                      ("read_gen2_inp_resp_initial", "self.inp_addr_dict"), ("read_matrix_inp_resp_initial", "self.matrix_inp_addr_dict")):
+        rf_ = repo.func(OP, "OppHardwarePlatform." + rd_)
+        chk.analysed(rf_)
+        tested = {src(x.comparators[0]) for x in walk_local(rf_.node) if isinstance(x, ast.Compare) and len(x.ops) == 1 and isinstance(x.ops[0], (ast.In, ast.NotIn)) and
+                  "msg[0]" in src(x.left) and src(x.comparators[0]).endswith("_addr_dict")}
+        indexed = {src(x.value) for x in walk_local(rf_.node) if isinstance(x, ast.Subscript) and isinstance(x.ctx, ast.Load) and "msg[0]" in src(x.slice) and
+                   src(x.value).endswith("_addr_dict")}
+        chk.ob("TABLE-5", "%s accepts a report from exactly the cards of the table it reads the card from (%s)" % (rd_, tab_), tested == indexed == {tab_}, rf_.where(),
+               detail="membership tested in %s, card taken from %s" % (sorted(tested), sorted(indexed)), construct=rf_.ident, text="card table of " + rd_)
     want = {"READ_GEN2_INP_CMD": ("read_gen2_inp_resp", "read_gen2_inp_resp_initial"),
             "READ_MATRIX_INP": ("read_matrix_inp_resp", "read_matrix_inp_resp_initial")}
     opp = repo.cls(OP, "OppHardwarePlatform")
@@ -726,6 +738,9 @@ def _reaches_switch_update(repo, cls, m):
 def battery():
     from sa.battery import M
     return [
+        M("initial matrix report accepted by the direct-input card table", OP, "            if chain_serial + '-' + str(msg[0]) not in self.matrix_inp_addr_dict:", "            if chain_serial + '-' + str(msg[0]) not in self.inp_addr_dict:", "TABLE-5"),
+        M("matrix reports accepted by the direct-input card table", OP, "            if chain_serial + '-' + str(msg[0]) not in self.matrix_inp_addr_dict:", "            if chain_serial + '-' + str(msg[0]) not in self.inp_addr_dict:", "TABLE-5", nth=1),
+        M("only the last OPP chain registered", OP, "            await comm.connect()\n            self.serial_connections.add(comm)\n", "            await comm.connect()\n\n        self.serial_connections.add(comm)\n", "LASTONLY-0"),
         M("second writer", FB, "        self.send_queue.put_nowait((msg, None, log_msg))", "        self.write_to_port(msg, log_msg)", "OWN-15"),
         M("lifo send queue", FB, "self.send_queue = asyncio.Queue()", "self.send_queue = asyncio.LifoQueue()", "OWN-15"),
         M("retry loop off by one", FB, "while max_retries == -1 or retries <= max_retries:", "while max_retries == -1 or retries < max_retries:", "DOM-27"),
